@@ -69,6 +69,28 @@ def enabled_ops(state, ntokens):
     return en
 
 
+MARKERS = ("negra_mark_heads", "mark_heads_negra", "mark_heads_ptb")
+
+
+def head_keys_present(prefix):
+    """binarize only needs a head flag (valid or stale) on every node it looks at.  Marking
+    puts one on every node including the root; every later transformation keeps or copies
+    it; only the node of add_topnode has none, which matters once it is no longer the root
+    (a second add_topnode since the last marking) or once collapsing has merged it with the
+    node below."""
+    marked, tops = False, 0
+    for op in prefix:
+        if op in MARKERS:
+            marked, tops = True, 0
+        elif op == "add_topnode":
+            tops += 1
+        elif op in ("collapse_unary_chains", "uncollapse_unary_chains") and tops:
+            # merging / re-creating the unary chain below an unflagged top node can leave the
+            # node below it without a flag as well
+            tops = 2
+    return marked and tops <= 1
+
+
 def step_state(state, op):
     heads, split, rattach, collapsed, topnodes = state
     if op == "root_attach":
@@ -116,8 +138,20 @@ def gen_program(rng, ntokens, maxlen):
             # a node-adding step between the split and the raising
             wanted.insert(3, rng.choice(["binarize", "binarize", "binarize_bare", "add_topnode"]))
         n = max(n, len(wanted))
+    elif rng.random() < 0.2:
+        # constituency preprocessing: heads, top node and punctuation in some order, binarize
+        mid = ["add_topnode", rng.choice(["punctuation_root", "punctuation_root",
+                                          "root_attach", "collapse_unary_chains"])]
+        rng.shuffle(mid)
+        wanted = [rng.choice(["negra_mark_heads", "mark_heads_negra", "mark_heads_ptb"])] + mid \
+            + [rng.choice(["binarize", "binarize_bare"])]
+        if rng.random() < 0.3:
+            wanted.insert(rng.randrange(1, 3), wanted.pop(0))     # marking not first
+        n = max(n, len(wanted))
     while len(prog) < n:
         en = enabled_ops(state, ntokens)
+        if "binarize" not in en and head_keys_present(prog):
+            en += ["binarize", "binarize_bare"]      # stale marking is marking enough
         if wanted and wanted[0] in en and rng.random() < 0.75:
             op = wanted.pop(0)
         else:
@@ -152,7 +186,8 @@ def generate(seed, tier):
         source = rng.choice(["api", "api", "export", "tigerxml"])
         progs.append({"sent": sent, "source": source, "shuffle": rng.randrange(1 << 30),
                       "layout": rng.randrange(1 << 30),
-                      "ops": gen_program(rng, len(sent["tokens"]), 6 if tier == "quick" else 8)})
+                      "ops": gen_program(rng, len(sent["tokens"]),
+                                         rng.choice([6, 6, 6, 8]) if tier == "quick" else 8)})
     nsteps = sum(len(p["ops"]) + 2 for p in progs)
     return {"programs": progs, "schedule": cm.gen_schedule(rng, nprog, nsteps),
             "io_seed": rng.randrange(1 << 30)}
@@ -240,8 +275,9 @@ def judge_program(p, recs, st):
             state_ = (False, False, False, False, 0)
             for nm in p["ops"][:step]:
                 state_ = step_state(state_, nm)
-            if fn == "binarize" and rec["exc"] == "ValueError" and not state_[0]:
-                st.probe("binarize_rejected_unmarked_node")     # heads not known to be marked
+            if fn == "binarize" and rec["exc"] == "ValueError" \
+                    and not head_keys_present(p["ops"][:step]):
+                st.probe("binarize_rejected_unmarked_node")     # some node has no head flag
                 return viols
             viols.append(cm.viol("C04/raised/%s/%s" % (fn, rec["exc"]), step=step,
                                  program=p["ops"][:step + 1], msg=rec.get("msg")))
@@ -320,6 +356,17 @@ def judge_program(p, recs, st):
             # independent of the flags found in the tree: raising undoes the multiplication
             # of boyd_split and removes nothing else, so what comes out is the multiset
             # before the split plus the nodes documented as added since (@-nodes, TOP)
+            floor = first_unraised_split_multiset(history)
+            if floor is not None:
+                # whatever happened since, raising keeps one node of every constituent that
+                # existed before the (first) split
+                st.probe("raising_judged_against_floor")
+                lost = dict((k, v - after.get(k, 0)) for k, v in floor.items()
+                            if after.get(k, 0) < v)
+                if lost:
+                    viols.append(cm.viol("C04/labels/raising/constituent-lost", step=step,
+                                         program=p["ops"][:step + 1], lost=lost))
+                    return viols
             want = pending_split_multiset(history, before)
             if want is not None:
                 st.probe("raising_judged_against_pre_split_multiset")
@@ -361,6 +408,20 @@ def judge_program(p, recs, st):
         history.append((fn, before))
         prev = cur
     return viols
+
+
+def first_unraised_split_multiset(history):
+    """Label multiset before the earliest boyd_split that has not been followed by a raising;
+    None if labels were merged or restored (collapsing) since."""
+    idx = None
+    for i in range(len(history) - 1, -1, -1):
+        if history[i][0] == "raising":
+            break
+        if history[i][0] in ("collapse_unary_chains", "uncollapse_unary_chains"):
+            return None
+        if history[i][0] == "boyd_split":
+            idx = i
+    return None if idx is None else dict(history[idx][1])
 
 
 def pending_split_multiset(history, before_now):
@@ -408,7 +469,7 @@ def execute(sc, sim):
                "unary_node_over_punctuation", "punctuation_only_sentence", "unary_chain_at_root",
                "one_token_sentence", "uncollapse_after_collapse",
                "raising_directly_after_boyd_split", "boyd_split_gap_degree_2plus",
-               "raising_judged_against_pre_split_multiset",
+               "raising_judged_against_pre_split_multiset", "raising_judged_against_floor",
                "two_programs_interleaved", "binarize_rejected_unmarked_node",
                "collapse_to_leaf_root_disclaimed")
     spec = build_spec(sc)
